@@ -154,7 +154,7 @@ def rs3Of (st : St) (rs1 : State) (e : Nat) : State :=
   { (effUpdate st.prog st.fuel (obsOf rs1 e) e).1 with obs := none }
 
 /-- everything after the notification was consumed: `rs1` is the reactive state with `chan` cleared -/
-theorem iterM {K : Nat} {v : View} (hw : v.wf K = true) (hc : v.coreS = true) {e : Nat} (k : Nat)
+theorem iterM {K : Nat} {v : View} (hre : RerunOK K v) {e : Nat} (k : Nat)
     (ih : ∀ st', InvCM K v st' → Polled K st' e → InvCM K v (effLoop k st' e))
     {st : St} (h : InvCM K v st) (hp : Polled K st e) {rs1 : State}
     (hb : BusyState st.prog (DeadE st.rs) rs1 e) (hs1 : SK0 st.rs rs1) :
@@ -202,7 +202,7 @@ theorem iterM {K : Nat} {v : View} (hw : v.wf K = true) (hc : v.coreS = true) {e
     have hs4' : SK (· = e) rs3 (runEffBody st.prog st.fuel rs3 e) := runEffBody_sk st.prog st.fuel rs3 e hnw
     have hs4 : SK (· = e) st.rs (runEffBody st.prog st.fuel rs3 e) := (hs3.mono (fun _ hf => hf.elim)).trans hs4'
     have hrm4 := h.rm.of_sk hs4 htop4
-    have hrun := h.run hw hc hp.ke ⟨x, hx⟩ hp.alive hp.done (hp.where_ h) hs4 hrm4 _ rfl hp.task
+    have hrun := h.run hre hp.ke ⟨x, hx⟩ hp.alive hp.done (hp.where_ h) hs4 hrm4 _ rfl hp.task
     exact ih _ hrun.1 ⟨hp.ke, hrun.2.2.2.2, hrun.2.1, hrun.2.2.1, hrun.2.2.2.1⟩
 
 /-- the reactive state with the notification of `e` consumed -/
@@ -225,7 +225,7 @@ theorem effLoop_succM (k : Nat) (st : St) (e : Nat) :
   rfl
 
 /-- **the task loop of a live effect keeps the invariant** -/
-theorem loopM {K : Nat} {v : View} (hw : v.wf K = true) (hc : v.coreS = true) {e : Nat} :
+theorem loopM {K : Nat} {v : View} (hre : RerunOK K v) {e : Nat} :
     ∀ (k : Nat) (st : St), InvCM K v st → Polled K st e → InvCM K v (effLoop k st e)
   | 0, st, h, _ => h
   | k + 1, st, h, hp => by
@@ -238,10 +238,10 @@ theorem loopM {K : Nat} {v : View} (hw : v.wf K = true) (hc : v.coreS = true) {e
       have hs1 : SK0 st.rs (rs1Of st.rs e) := SK.upd_stab _ _ _ (fun _ => rfl)
       have hobs : (rs1Of st.rs e).obs = none := h.rm.top.quiet.obs
       rw [hobs, rs3S_none]
-      exact iterM hw hc k (loopM hw hc k) h hp hb hs1
+      exact iterM hre k (loopM hre k) h hp hb hs1
 
 /-- **one poll of a live effect's task keeps the invariant** -/
-theorem pollAliveM {K : Nat} {v : View} (hw : v.wf K = true) (hc : v.coreS = true) {st : St} (h : InvCM K v st)
+theorem pollAliveM {K : Nat} {v : View} (hre : RerunOK K v) {st : St} (h : InvCM K v st)
     {e : Nat} (hp : Polled K st e) : InvCM K v (pollTask st e) := by
   have hk := hp.eff.kind h.rm
   have he : e < st.rs.nodes.length := st.rs.lt_of_kind_ne (by rw [hk]; simp)
@@ -281,7 +281,7 @@ theorem pollAliveM {K : Nat} {v : View} (hw : v.wf K = true) (hc : v.coreS = tru
         (obsOf (rs1Of (st.rs.upd e fun n => { n with woken := false }) e) e) e).2 then _ else _)
     rw [hcomb, hobs, rs3S_none]
     -- the DOM phase and the recursive calls do not see the intermediate `woken := false` state
-    have key := iterM hw hc 63 (loopM hw hc 63) h hp hb hs1
+    have key := iterM hre 63 (loopM hre 63) h hp hb hs1
     exact key
 
 end Leptos.RView
